@@ -7,6 +7,7 @@ import (
 	"go/token"
 	"go/types"
 	"math/big"
+	"os"
 	"runtime"
 	"sort"
 	"strings"
@@ -121,6 +122,9 @@ type pathCtx struct {
 	nAnon     int
 	panicOK   bool
 	hashes    map[string][]hashRec
+	funcs     map[string][]hashRec
+	decimals  map[*Term]sstr
+	bech      []bechRec
 }
 
 type worker struct {
@@ -209,7 +213,11 @@ func (px *pathCtx) assertPC(t *Term) {
 
 // decide picks one of the mutually exclusive alternatives conds[i]; alternatives that are
 // feasible but not taken are queued as new work. Returns the chosen index.
-func (px *pathCtx) decide(conds []*Term) int {
+func (px *pathCtx) decide(conds []*Term) int { return px.decideX(conds, false) }
+
+// decideX: exhaustive says the alternatives cover every case, so if all but the last are
+// infeasible the last one needs no query (the path condition itself is satisfiable).
+func (px *pathCtx) decideX(conds []*Term, exhaustive bool) int {
 	// concrete fast path
 	nFeasibleStatic := 0
 	last := -1
@@ -248,6 +256,8 @@ func (px *pathCtx) decide(conds []*Term) int {
 		var r SatResult
 		if nFeasibleStatic == 1 {
 			r = Sat
+		} else if exhaustive && i == last && len(feas) == 0 {
+			r = Sat
 		} else {
 			r = px.solver.CheckWith(c)
 			px.w.ex.res.mu.Lock()
@@ -275,7 +285,7 @@ func (px *pathCtx) decide(conds []*Term) int {
 }
 
 func (px *pathCtx) branch(c *Term) bool {
-	return px.decide([]*Term{c, mkNot(c)}) == 0
+	return px.decideX([]*Term{c, mkNot(c)}, true) == 0
 }
 
 // concInt makes a symbolic integer concrete by forking over [lo,hi]; values outside raise the
@@ -572,6 +582,9 @@ func (w *worker) runPath(fn *ssa.Function, prefix []int) {
 			case pathAbort:
 				res.mu.Lock()
 				res.Aborted++
+				if os.Getenv("GOSYMX_DEBUG") != "" && res.Aborted <= 20 {
+					fmt.Fprintf(os.Stderr, "DEBUG abort: %s at %s decisions=%v\n", p.why, pos, px.decisions)
+				}
 				res.mu.Unlock()
 			case pathLimit:
 				res.mu.Lock()
